@@ -400,7 +400,7 @@ def cases(draw):
 
 def plan(tier):
     q = tier == "quick"
-    return [{"n": 220 if q else 5000} for _ in range(16)]
+    return [{"n": 400 if q else 5000} for _ in range(16)]
 
 
 def run_shard(spec, ctx):
